@@ -527,7 +527,7 @@ run_editor(const char *fn)
 
 	/* call /bin/sh with the above proto-task as here-document
 	 * and stdout redir'd to FD */
-	if (UNLIKELY(posix_spawn(&p, sh, NULL, NULL, args, environ) < 0)) {
+	if (UNLIKELY((errno = posix_spawn(&p, sh, NULL, NULL, args, environ)))) {
 		serror("Error: cannot run /bin/sh");
 		rc = -1;
 	} else {
@@ -617,7 +617,7 @@ END:VCALENDAR\n";
 	/* call /bin/sh with the above proto-task as here-document
 	 * and stdout redir'd to FD */
 	if (UNLIKELY(rc < 0 ||
-		     posix_spawn(&p, sh, &fa, NULL, args, environ) < 0)) {
+		     (errno = posix_spawn(&p, sh, &fa, NULL, args, environ)))) {
 		serror("Error: cannot run /bin/sh");
 		posix_spawn_file_actions_destroy(&fa);
 		goto clo;
